@@ -507,15 +507,15 @@ func (e *streamEngine) check(res *RunResult) {
 				e.rec.Violate("C11", "healthy-stream-ended", "ended", "stream %d (from %d) ended by itself: %v", i, s.plan.From, serr)
 			} else if s.plan.From > 0 && last != head {
 				kind := "tail"
+				if last > 0 && last < head && lostInHandover(last+1, head) {
+					kind = "stored-during-catchup-scan"
+				}
 				for j, o := range e.streams {
 					// another connection from the same address went away after this one opened:
 					// its RemoveCallback(id) removes the callback registered under the shared id
 					if j != i && o.plan.Addr == s.plan.Addr && (o.plan.CancelAfter >= 0) {
 						kind = "callback-removed-by-other-stream-of-same-address"
 					}
-				}
-				if last > 0 && last < head && lostInHandover(last+1, head) {
-					kind = "stored-during-catchup-scan"
 				}
 				e.rec.Violate("C11", "stream-stops-short", kind, "stream %d (from %d, %s) is open and idle but its last item is round %d, store head is %d", i, s.plan.From, sc.Backend, last, head)
 			} else if s.plan.From == 0 && len(got) > 0 && last != head {
